@@ -19,7 +19,8 @@ SPEC = {
             "and the peer's hills file cut at every byte (quick: every 9th) while the other walker synchronises; after every "
             "action the multiplicity of every deposited hill in every walker's total bias (probed at the hill centres) must "
             "be 1 for own hills and <= 1 for peers' hills, never a hill that was not deposited; right after a walker's own "
-            "synchronisation it must hold every hill a peer had published before the peer's last synchronisation; at quiescence all are 1",
+            "synchronisation it must hold every hill a peer had published before the peer's last synchronisation; at quiescence all are 1"
+            " Later additions: metadynamics walkers whose state files are rewritten every 3 or 4 steps while they synchronise every step (three step orders each).",
     "assumptions": ["the engine's replica communication is modelled by the controller: reliable, ordered per pair, buffered or rendezvous",
                     "dictated positions/forces; hill centres 1.0 apart so that multiplicities can be read from the energy",
                     "files are written through the real filesystem in one scratch directory; a peer's in-flight write is modelled as a byte prefix of its hills file"],
